@@ -27,15 +27,18 @@ const lower2semRunner = `
 const fs = require('fs');
 function mix(a, b) { return (a * 1000003 + b * 7919 + 12345) % 1000000007; }
 function makeWorld(seed) {
-  const W = { log: [], skip: false, res: null };
-  const proxies = new Map(), ids = new WeakMap();
+  const W = { log: [], skip: false, res: [] };
+  const proxies = new Map(), ids = new WeakMap(), fns = new Map(), fnIds = new WeakMap();
+  const tplIds = new Map(), tplCount = new Map();
   let getv = null, setv = null;
   function obj(id) {
     let p = proxies.get(id);
     if (!p) {
       p = new Proxy({}, {
         get(t, k) {
-          if (k === Symbol.toPrimitive) return function (hint) { return toPrim(id, hint); };
+          if (k === Symbol.toPrimitive) return function (hint) { return toPrim('O', id, hint); };
+          // assumption of the model: looking up "call" on a callee is not observable
+          if (k === 'call') return undefined;
           const n = W.log.length;
           W.log.push('get:O' + id + ':' + String(k));
           return decide(mix(seed, mix(n, 1 + id)));
@@ -46,26 +49,49 @@ function makeWorld(seed) {
           decide(mix(seed, mix(n, 40 + id)));
           return true;
         },
+        deleteProperty(t, k) {
+          const n = W.log.length;
+          W.log.push('del:O' + id + ':' + String(k));
+          return !!decide(mix(seed, mix(n, 500 + id)));
+        },
       });
       proxies.set(id, p); ids.set(p, id);
     }
     return p;
   }
+  function fnv(id) {
+    let g = fns.get(id);
+    if (!g) {
+      g = function (...args) {
+        const n = W.log.length;
+        W.log.push('callf:' + id + ':' + show(this) + ':' + args.map(show).join(','));
+        return decide(mix(seed, mix(n, 400 + id)));
+      };
+      g[Symbol.toPrimitive] = function (hint) { return toPrim('F', id, hint); };
+      Object.freeze(g);
+      fns.set(id, g); fnIds.set(g, id);
+    }
+    return g;
+  }
   function pickVal(c) {
-    const q = Math.floor(c / 12);
-    switch (c % 12) {
+    const q = Math.floor(c / 16);
+    switch (c % 16) {
       case 0: return undefined;
       case 1: return null;
       case 2: return 0;
       case 3: return 2;
-      case 4: return 3;
+      case 4: return fnv(q % 3);
       case 5: return '';
       case 6: return 'ab';
       case 7: return '1';
       case 8: return obj(10 + q % 3);
-      case 9: return obj(13 + q % 2);
+      case 9: return fnv(q % 3);
       case 10: return obj(15 + q % 2);
-      default: return NaN;
+      case 11: return NaN;
+      case 12: return fnv(q % 3);
+      case 13: return 3;
+      case 14: return obj(13 + q % 2);
+      default: return fnv(q % 3);
     }
   }
   function decide(c) {
@@ -73,11 +99,11 @@ function makeWorld(seed) {
     if (c % 13 === 0) throw 99;
     return pickVal(Math.floor(c / 13));
   }
-  function toPrim(id, hint) {
-    const n = W.log.length;
-    if (hint === 'string') { W.log.push('prims:O' + id); return decide(mix(seed, mix(n, 200 + id))); }
-    if (hint === 'number') { W.log.push('primn:O' + id); return decide(mix(seed, mix(n, 300 + id))); }
-    W.log.push('primdefault:O' + id);
+  function toPrim(kind, id, hint) {
+    const n = W.log.length, off = kind === 'F' ? 50 : 0;
+    if (hint === 'string') { W.log.push('prims:' + kind + id); return decide(mix(seed, mix(n, 200 + off + id))); }
+    if (hint === 'number') { W.log.push('primn:' + kind + id); return decide(mix(seed, mix(n, 300 + off + id))); }
+    W.log.push('primdefault:' + kind + id);
     return 0;
   }
   function show(v) {
@@ -92,27 +118,39 @@ function makeWorld(seed) {
       if (/[0-9]{16}/.test(v) || v.indexOf('e+') >= 0 || v.indexOf('Infinity') >= 0) W.skip = true;
       return 'S<' + v + '>';
     }
+    if (typeof v === 'boolean') return v ? 'b1' : 'b0';
     if (typeof v === 'object' && ids.has(v)) return 'O' + ids.get(v);
+    if (typeof v === 'function' && fnIds.has(v)) return 'F' + fnIds.get(v);
+    if (Array.isArray(v) && Array.isArray(v.raw) && /^t[0-9]+$/.test(v[0])) {
+      // a template strings array: the site is spelled by its first string, arrays of one site are numbered by identity
+      if (!tplIds.has(v)) {
+        const c = tplCount.get(v[0]) || 0;
+        tplCount.set(v[0], c + 1);
+        tplIds.set(v, 'T' + v[0].slice(1) + '#' + c);
+      }
+      return tplIds.get(v);
+    }
     W.skip = true;
     return '?' + typeof v;
   }
-  W.init = function (i) { return i % 2 === 1 ? obj(10 + mix(seed, 900 + i) % 7) : pickVal(mix(seed, 900 + i)); };
+  W.init = function (i) { return i % 2 === 1 ? obj(10 + mix(seed, 900 + i) % 7) : i === 0 ? fnv(mix(seed, 900) % 3) : pickVal(mix(seed, 900 + i)); };
   W.access = function (g, s) { getv = g; setv = s; };
   W.call = function (f, a) {
     const n = W.log.length;
     W.log.push('call:' + f + ':' + show(a));
     return decide(mix(seed, mix(n, 100 + f)));
   };
-  W.result = function (r) { W.res = 'V:' + show(r); };
+  W.thisObj = obj(17);
+  W.result = function (r) { W.res.push('V:' + show(r)); };
   W.error = function (e) {
-    if (e instanceof TypeError) W.res = 'E:TypeError';
-    else if (e instanceof Error) W.res = 'E:OTHER:' + e.name + ':' + e.message;
-    else W.res = 'E:throw:' + show(e);
+    if (e instanceof TypeError) W.res.push('E:TypeError');
+    else if (e instanceof Error) W.res.push('E:OTHER:' + e.name + ':' + e.message);
+    else W.res.push('E:throw:' + show(e));
   };
   W.finish = function (vars) {
     const vs = vars.map(show).join(',');
     if (W.skip) return 'SKIP';
-    return W.res + '|' + W.log.join(';') + '|' + vs;
+    return W.res.join(',') + '|' + W.log.join(';') + '|' + vs;
   };
   return W;
 }
@@ -122,7 +160,8 @@ function run(code, seed) {
     'var v0 = W.init(0), v1 = W.init(1), v2 = W.init(2), v3 = W.init(3), r;\n' +
     'W.access(function (i) { return [v0, v1, v2, v3][i]; }, function (i, x) { if (i === 0) v0 = x; else if (i === 1) v1 = x; else if (i === 2) v2 = x; else v3 = x; });\n' +
     'function f0(a) { return W.call(0, a); } function f1(a) { return W.call(1, a); } function f2(a) { return W.call(2, a); }\n' +
-    'try {\n' + code + '\nW.result(r); } catch (e) { W.error(e); }\n' +
+    code + '\n' +
+    'for (var i_ = 0; i_ < 2; i_++) { try { once.call(W.thisObj); W.result(r); } catch (e) { W.error(e); } }\n' +
     'return W.finish([v0, v1, v2, v3]);';
   try {
     return new Function('W', body)(W);
@@ -149,8 +188,9 @@ func init() {
 		defer func() { l2noBig = false }()
 		cases := []l2semCase{}
 		for len(cases) < e.limit {
+			l2site = 0
 			x := genL2(r, e, 1+r.Intn(5))
-			src := "r = " + x.js + ";"
+			src := "function once() { r = " + x.js + "; }"
 			res := api.Transform(src, api.TransformOptions{
 				Supported: map[string]bool{"logical-assignment": false, "exponent-operator": false, "template-literal": false,
 					"nullish-coalescing": false, "optional-chain": false},
@@ -209,7 +249,13 @@ func init() {
 				case strings.HasPrefix(parts[0], "E:throw"):
 					e.stat("node:result:host-throw")
 				}
-				for _, k := range []string{"get:", "set:", "call:", "prims:", "primn:"} {
+				if strings.Contains(parts[0], "#1") {
+					e.stat("node:template-array-not-cached")
+				}
+				if strings.Contains(parts[0], "#0") {
+					e.stat("node:template-array-passed")
+				}
+				for _, k := range []string{"get:", "set:", "call:", "prims:", "primn:", "callf:", "del:", "callf:0:O", "callf:1:O", "callf:2:O"} {
 					if strings.Contains(parts[0], k) {
 						e.stat("node:event:" + strings.TrimSuffix(k, ":"))
 					}
